@@ -1499,6 +1499,11 @@ func (f *fragment) notNull() (*Row, error) {
 
 // rangeBetween returns bitmaps with a bsiGroup value encoding matching any value between predicateMin and predicateMax.
 func (f *fragment) rangeBetween(bitDepth uint, predicateMin, predicateMax int64) (*Row, error) {
+	// No value lies in an empty interval (e.g. "-1 < f < 0" arrives as [0, -1]).
+	if predicateMin > predicateMax {
+		return NewRow(), nil
+	}
+
 	b := f.row(bsiExistsBit)
 
 	// Convert predicates to unsigned values.
